@@ -6,6 +6,7 @@ use std::panic::catch_unwind;
 
 mod statuslist;
 mod jws;
+mod did;
 mod iota;
 
 // the Kani harness bodies, compiled natively (cfg(not(kani))) and fed with CBMC's concrete values
@@ -20,12 +21,15 @@ pub mod c12;
 pub mod c13;
 #[path = "../../kani/src/c11.rs"]
 pub mod c11;
+#[path = "../../kani/src/c10.rs"]
+pub mod c10;
 
 fn kani_bodies() -> Vec<(&'static str, fn())> {
   let mut v: Vec<(&'static str, fn())> = Vec::new();
   v.extend_from_slice(c12::BODIES);
   v.extend_from_slice(c13::BODIES);
   v.extend_from_slice(c11::BODIES);
+  v.extend_from_slice(c10::BODIES);
   v
 }
 
@@ -72,6 +76,7 @@ fn main() {
     "statuslist_oneway" => statuslist::oneway(&cex),
     "jws_binding" => jws::binding(&cex),
     "state_metadata" => iota::state_metadata(&cex),
+    "did_syntax" => did::syntax(&cex),
     "kani" => kani_replay(&cex),
     "selftest" => selftest(),
     _ => Err(format!("unknown scenario {scenario}")),
